@@ -1,3 +1,4 @@
+import PydapModel.DasForeign
 import PydapModel.DasText
 import PydapModel.DdsForeign
 import PydapModel.DdsText
